@@ -26,6 +26,8 @@ package c16
 
 import (
 	"fmt"
+	"os"
+	"path/filepath"
 	"sort"
 	"strconv"
 	"strings"
@@ -502,6 +504,31 @@ func shEmit(c *hx.Ctx, cs shCase, st *shStats, tag string) {
 	c.Count(fmt.Sprintf("sh.len=%02d", len(cs.ops)))
 }
 
+// shCorpus: corpus/C16/*.txt, lines `C16 sh <cfg> <words> <ops>` (the failing inputs of the seeded classes), run first.
+func shCorpus(c *hx.Ctx, st *shStats) {
+	wd, _ := os.Getwd()
+	var files []string
+	for _, d := range []string{filepath.Join(wd, "..", "..", "corpus", "C16"), filepath.Join(wd, "corpus", "C16")} {
+		m, _ := filepath.Glob(filepath.Join(d, "*.txt"))
+		files = append(files, m...)
+	}
+	sort.Strings(files)
+	for _, fn := range files {
+		data, err := os.ReadFile(fn)
+		if err != nil {
+			continue
+		}
+		for _, line := range strings.Split(string(data), "\n") {
+			t := strings.Fields(strings.TrimSpace(line))
+			if len(t) >= 5 && t[0] == "C16" && t[1] == "sh" {
+				if cs, ok := shParseCase(t[1:5]); ok {
+					shEmit(c, cs, st, "corpus")
+				}
+			}
+		}
+	}
+}
+
 func shFail(k, a, n int) []shOp {
 	var l []shOp
 	for i := 0; i < n; i++ {
@@ -686,6 +713,7 @@ func runShareKind(c *hx.Ctx) {
 	lvl := log.DefaultLogger.GetLogLevel()
 	log.DefaultLogger.SetLogLevel(log.ERROR)
 	defer log.DefaultLogger.SetLogLevel(lvl)
+	shCorpus(c, st)
 	// (1) exhaustive: cluster 0 health-checked, cluster 1 WITHOUT a checker, both list address 0; after a prefix that
 	// leaves the host one failure short of / at the unhealthy threshold, EVERY list of length L over the alphabet
 	alpha := []shOp{
